@@ -13,6 +13,7 @@ from commonroad.scenario.lanelet import Lanelet, LaneletNetwork
 from commonroad.scenario.obstacle import DynamicObstacle, ObstacleType, StaticObstacle
 from commonroad.scenario.scenario import Scenario
 from commonroad.scenario.trajectory import Trajectory
+import contracts.c01  # noqa: F401  (float_to_str summary provider)
 from contracts.c05 import MVO
 from contracts.c05b import local_rect, mk_initial_state, mk_ks_state
 from pyvc.contract import B, Contract, R, T, conj, disj, register
@@ -278,3 +279,86 @@ for _role in ("static", "dynamic"):
                     yield ("registered per time step on exactly the shape lanelets", reg == {(1, 0): True, (2, 0): False, (1, 1): True, (2, 1): True})
                 yield ("removal never fails", rem.exc is None)
                 yield ("after removal nothing is registered", not any(reg2.values()))
+
+
+# ------------------------------------------------------------------------------ assignment by the file readers (lanelet_assignment=True)
+
+for _fmt, _kind in (("PROTOBUF", "static"), ("PROTOBUF", "dynamic"), ("XML", "static"), ("XML", "dynamic")):
+
+    @register
+    class ReaderAssign(AssignContract):
+        target = "commonroad.common.file_reader.CommonRoadFileReader.open"
+        case = "%s reader with lanelet_assignment=True, %s obstacle" % (_fmt, _kind)
+        fmt, kind = _fmt, _kind
+        summaries = ("make_valid_orientation", "float_to_str")
+        budget_s = 1500  # 2-190 s on an idle machine
+        describe = "the scenario read from a file with lanelet assignment enabled records, for the obstacle it read, exactly the lanelets that contain its centre / that its occupancy intersects, and the lanelet registries are the inverse"
+
+        def build(self, F):
+            import contracts.c01  # noqa: F401  (float_to_str summary provider)
+
+            sc, net, las = base_scenario(F, (1,))
+            sh = local_rect(F, "sh_")
+            init = mk_initial_state(F, "init_", 0)
+            if self.kind == "static":
+                obs = F.new(StaticObstacle, 10, ObstacleType.PARKED_VEHICLE, sh, init)
+            else:
+                pred = F.new(TrajectoryPrediction, F.new(Trajectory, 1, [mk_ks_state(F, "s0_", 1)]), sh)
+                obs = F.new(DynamicObstacle, 11, ObstacleType.CAR, sh, init, pred)
+            F.method(sc, "add_objects", obs)
+            return {"sc": sc, "args": []}
+
+        def invoke(self, F, inp):
+            import os
+
+            from commonroad.common.file_reader import CommonRoadFileReader
+            from commonroad.common.file_writer import CommonRoadFileWriter
+            from commonroad.common.util import FileFormat
+            from commonroad.common.writer.file_writer_interface import OverwriteExistingFile
+            from commonroad.planning.planning_problem import PlanningProblemSet
+            from commonroad.scenario.scenario import Location
+            from pyvc.contract import scratch_dir
+
+            fmt = FileFormat[self.fmt]
+            path = os.path.join(scratch_dir("c07_"), "out" + fmt.value) if F.native else "/nonexistent-dir/c07_%s_%s%s" % (self.fmt, self.kind, fmt.value)
+            w = F.new(CommonRoadFileWriter, inp["sc"], F.new(PlanningProblemSet), "author", "affiliation", "source", set(), F.new(Location), file_format=fmt)
+            F.method(w, "write_to_file", path, OverwriteExistingFile.ALWAYS)
+            sc2, _ = F.items(F.method(F.new(CommonRoadFileReader, path), "open", True))
+            return sc2
+
+        def post(self, F, inp, out):
+            yield ("writing and reading with lanelet assignment raise nothing", out.exc is None)
+            if out.exc is not None:
+                return
+            sc2 = out.value
+            las = {F.attr(la, "lanelet_id"): la for la in F.items(F.attr(F.attr(sc2, "lanelet_network"), "lanelets"))}
+            obs = F.items(F.attr(sc2, "obstacles"))
+            yield ("one obstacle and one lanelet were read", len(obs) == 1 and len(las) == 1)
+            if len(obs) != 1:
+                return
+            ob = obs[0]
+            init = F.attr(ob, "initial_state")
+            if self.kind == "static":
+                occ = F.method(ob, "occupancy_at_time", 0)
+                center, shape = members(F, F.attr(ob, "initial_center_lanelet_ids")), members(F, F.attr(ob, "initial_shape_lanelet_ids"))
+                for lid, la in las.items():
+                    c, h = center_in(F, la, F.attr(init, "position")), hits(F, la, F.attr(occ, "shape"))
+                    F.assume(z3.Implies(c, h))
+                    yield ("lanelet %d in the centre set <=> it contains the centre" % lid, z3.BoolVal(lid in center) == c)
+                    yield ("lanelet %d in the shape set <=> the occupancy intersects it" % lid, z3.BoolVal(lid in shape) == h)
+                    yield ("lanelet %d registers the obstacle <=> it is in the shape set" % lid,
+                           (F.attr(ob, "obstacle_id") in members(F, F.attr(la, "static_obstacles_on_lanelet"))) == (lid in shape))
+                return
+            pred = F.attr(ob, "prediction")
+            states = [init] + list(F.items(F.attr(F.attr(pred, "trajectory"), "state_list")))
+            for t, s in enumerate(states):
+                occ = F.method(ob, "occupancy_at_time", t)
+                cset = members(F, F.attr(pred, "center_lanelet_assignment").get(t)) if t else members(F, F.attr(ob, "initial_center_lanelet_ids"))
+                sset = members(F, F.attr(pred, "shape_lanelet_assignment").get(t)) if t else members(F, F.attr(ob, "initial_shape_lanelet_ids"))
+                for lid, la in las.items():
+                    c, h = center_in(F, la, F.attr(s, "position")), hits(F, la, F.attr(occ, "shape"))
+                    F.assume(z3.Implies(c, h))
+                    yield ("t=%d: lanelet %d in the centre set <=> it contains the centre" % (t, lid), z3.BoolVal(lid in cset) == c)
+                    yield ("t=%d: lanelet %d in the shape set <=> the occupancy intersects it" % (t, lid), z3.BoolVal(lid in sset) == h)
+                    yield ("t=%d: lanelet %d registers the obstacle <=> it is in the shape set" % (t, lid),
+                           (F.attr(ob, "obstacle_id") in members(F, F.attr(la, "dynamic_obstacles_on_lanelet").get(t))) == (lid in sset))
